@@ -28,7 +28,7 @@ def verify(sid, wt):
     demo = open(os.path.join(dst, "demo.rs")).read()
     head = "\n".join(demo.splitlines()[:30])
     m = re.search(r"([\w./-]*tests/[\w.-]+\.rs)", head)
-    place = m.group(1) if m else None
+    place = re.sub(r"^/?tmp/seed/w\d+/", "", m.group(1)).lstrip("/") if m else None
     m = re.search(r"(cargo (?:test|nextest)[^\n`]*)", head)
     run = m.group(1).strip() if m else None
     meta = {"id": sid, "property": sid[:3], "placement": place, "run": run}
